@@ -8,7 +8,8 @@
    harness compares their dumps). *)
 Require Import Cirbo.Model.Base Cirbo.Model.Gate Cirbo.Model.Circuit Cirbo.Model.Eval Cirbo.Model.Sem
         Cirbo.Model.Connect Cirbo.Model.WF Cirbo.Model.Miter.
-Require Import Cirbo.Proofs.WFSound Cirbo.Proofs.SemMiter Cirbo.Proofs.SemMiterTotal.
+Require Import Cirbo.Proofs.WFSound Cirbo.Proofs.SemMiter Cirbo.Proofs.SemMiterTotal
+        Cirbo.Proofs.ArityPreserve Cirbo.Proofs.MiterEntry.
 
 (* mismatched shapes are rejected with the dedicated error (whatever the circuits are) *)
 Theorem C13_mismatched_shapes_rejected : forall l r ln rn,
@@ -55,6 +56,29 @@ Theorem C13_miter_true_iff_differ : forall l r ln rn m,
        Eval l (miter_left_assignment ln a l) o_l vl /\
        Eval r (miter_right_assignment ln a l r) o_r vr /\ vl <> vr).
 Proof. exact build_miter_true_iff_differ. Qed.
+
+(* the same at the entry point evaluate: the miter has accepted arities again, so evaluate returns
+   on it (completeness of the evaluators, C01), and for every Boolean input vector it returns the
+   one-element list [b] with b = "evaluate l and evaluate r return different output vectors" *)
+Theorem C13_miter_arities_accepted : forall l r ln rn m,
+  WF l -> WF r -> outputs l <> [] ->
+  build_miter l r ln rn = Ok m -> arity_ok l -> arity_ok r -> arity_ok m.
+Proof. exact build_miter_arity_ok. Qed.
+
+Theorem C13_miter_evaluate : forall l r ln rn m bs,
+  WF l -> WF r -> arity_ok l -> arity_ok r -> ln <> "" -> rn <> "" -> outputs l <> [] ->
+  build_miter l r ln rn = Ok m -> length (inputs l) <= length bs ->
+  exists vl vr b,
+    evaluate l (map inj bs) = Ok vl /\ evaluate r (map inj bs) = Ok vr /\
+    evaluate m (map inj bs) = Ok [inj b] /\ (b = true <-> vl <> vr).
+Proof. exact build_miter_evaluate. Qed.
+
+(* and its truth table is one row of 2^n entries *)
+Theorem C13_miter_truth_table_returns : forall l r ln rn m,
+  WF l -> WF r -> arity_ok l -> arity_ok r -> ln <> "" -> rn <> "" -> outputs l <> [] ->
+  build_miter l r ln rn = Ok m ->
+  exists row, get_truth_table m = Ok [row] /\ length row = 2 ^ length (inputs l).
+Proof. exact build_miter_truth_table_returns. Qed.
 
 (* totality: with the implementation's block names build_miter returns normally for ALL well
    formed operands of equal shapes (whatever their labels and blocks are) ... *)
@@ -111,3 +135,12 @@ Proof.
   split; [apply wfb_sound; vm_compute; reflexivity|].
   eexists; split; [vm_compute; reflexivity|]. reflexivity.
 Qed.
+
+(* the example at the entry points: on (a, b) = (F, F) the outputs are [F; F] vs [T; F] (differ),
+   on (T, F) they are [F; T] vs [F; T] (equal) *)
+Example C13_example_evaluate :
+  exists m, build_miter C13_ex_l C13_ex_r "circuit1" "circuit2" = Ok m /\
+    evaluate C13_ex_l [F; F] = Ok [F; F] /\ evaluate C13_ex_r [F; F] = Ok [T; F] /\ evaluate m [F; F] = Ok [T] /\
+    evaluate C13_ex_l [T; F] = Ok [F; T] /\ evaluate C13_ex_r [T; F] = Ok [F; T] /\ evaluate m [T; F] = Ok [F] /\
+    get_truth_table m = Ok [[T; F; F; T]].
+Proof. eexists; split; [vm_compute; reflexivity|]. repeat split; vm_compute; reflexivity. Qed.
